@@ -62,6 +62,8 @@ class Exec(EvalMixin, CallMixin):
         self.loop_ord = {id(n): i for i, n in enumerate(self.loops)}
         self.call_ord = {id(n): i for i, n in enumerate(ordered_calls(fnode))}
         self.decl_kinds = {}
+        for n_, k_ in (contract.get("local_kinds") or {}).items():
+            self.decl_kinds[n_] = kind_of_annotation(k_, self.uni)      # kinds of un-annotated locals (reported as an assumption)
         self.axioms = []
         self.cur_call = None
         self.name_counts = {}
@@ -285,10 +287,13 @@ class Exec(EvalMixin, CallMixin):
             raise OutOfSubset("statement %s at line %s" % (type(node).__name__, node.lineno))
         res = m(node, st)
         ga = self.con.get("ghost_after")
-        if ga and not isinstance(node, (ast.For, ast.While, ast.If)):
-            code = ga.get(ast.unparse(node))
+        if ga and not isinstance(node, (ast.For, ast.While)):
+            # anchor: the statement's source text; an `if` statement is anchored by "if <test>" (ghost code then runs
+            # after the whole statement, on every branch that falls through)
+            akey = ("if " + ast.unparse(node.test)) if isinstance(node, ast.If) else ast.unparse(node)
+            code = ga.get(akey)
             if code:
-                self.ghost_sites_hit.add(ast.unparse(node))
+                self.ghost_sites_hit.add(akey)
                 for s2, flow in res:
                     if flow == "next":
                         self.run_ghost(code, s2)
